@@ -305,49 +305,64 @@ def namedBitsMinimal (c : Bytes) : Bool :=
     | some last => u.toNat < 8 && (last.toNat >>> u.toNat) % 2 == 1
     | none => false
 
-/-- DEFAULT components must be absent when they carry the default (X.690 §11.5):
-    Extension.critical FALSE, BasicConstraints.cA FALSE, IDP booleans FALSE; KeyUsage is a
-    named-bit list; the value of every known extension is itself canonical DER -/
+/-- `critical BOOLEAN DEFAULT FALSE`: absent, or TRUE written as FF -/
+def critOk : Asn1 → Bool
+  | .prim 0 1 [b] => b.toNat == 255
+  | _ => false
+
+/-- the extension identifiers whose values this reader opens -/
+def knownExtOid (oid : List Nat) : Bool :=
+  oid.take 3 == [2, 5, 29] && oid.length == 4 &&
+    [35, 14, 15, 37, 19, 17, 30, 31, 20, 28, 21, 24].contains (oid.getD 3 0)
+
+/-- KeyUsage is a named-bit list -/
+def kuValueOk : Asn1 → Bool
+  | .prim 0 3 c => namedBitsMinimal c
+  | _ => false
+
+/-- BasicConstraints.cA DEFAULT FALSE: if present it is TRUE -/
+def bcValueOk : Asn1 → Bool
+  | .cons 0 16 (.prim 0 1 [b] :: _) => b.toNat == 255
+  | _ => true
+
+/-- IssuingDistributionPoint booleans DEFAULT FALSE -/
+def idpFlagOk : Asn1 → Bool
+  | .prim 2 1 [b] => b.toNat == 255
+  | .prim 2 2 [b] => b.toNat == 255
+  | _ => true
+
+def idpValueOk : Asn1 → Bool
+  | .cons 0 16 kids => kids.all idpFlagOk
+  | _ => false
+
+/-- invalidityDate is a GeneralizedTime -/
+def invDateOk : Asn1 → Bool
+  | .prim 0 24 _ => true
+  | _ => false
+
+/-- the value of an extension this reader knows is itself canonical DER, with the DEFAULT and
+    named-bit rules of its type (X.690 §11.5, §11.2.2) -/
+def extValueCanonical (oid : List Nat) (v : Bytes) : Bool :=
+  if !knownExtOid oid then true else
+  match decodeAll v with
+  | none => false
+  | some t =>
+    canonical t &&
+    (if oid == [2, 5, 29, 15] then kuValueOk t
+     else if oid == [2, 5, 29, 19] then bcValueOk t
+     else if oid == [2, 5, 29, 28] then idpValueOk t
+     else if oid == [2, 5, 29, 24] then invDateOk t
+     else true)
+
+def extOidValueOk (o : Asn1) (v : Bytes) : Bool :=
+  match asOid o with
+  | none => false
+  | some oid => extValueCanonical oid v
+
+/-- Extension: `critical` absent or TRUE, value canonical -/
 def extCanonical : Asn1 → Bool
-  | .cons 0 16 kids =>
-    let (oidN, crit, val) : Option Asn1 × Option Asn1 × Option Asn1 :=
-      match kids with
-      | [o, .prim 0 4 v] => (some o, none, some (.prim 0 4 v))
-      | [o, c, .prim 0 4 v] => (some o, some c, some (.prim 0 4 v))
-      | _ => (none, none, none)
-    match oidN, val with
-    | some o, some (.prim 0 4 v) =>
-      (match crit with
-       | none => true
-       | some (.prim 0 1 [b]) => b.toNat == 255
-       | _ => false) &&
-      (match asOid o with
-       | none => false
-       | some oid =>
-         let known := oid.take 3 == [2, 5, 29] && oid.length == 4 &&
-           [35, 14, 15, 37, 19, 17, 30, 31, 20, 28, 21, 24].contains (oid.getD 3 0)
-         if !known then true else
-         match decodeAll v with
-         | none => false
-         | some t =>
-           canonical t &&
-           (if oid == [2, 5, 29, 15] then
-              (match t with | .prim 0 3 c => namedBitsMinimal c | _ => false)
-            else if oid == [2, 5, 29, 19] then
-              (match t with
-               | .cons 0 16 (.prim 0 1 [b] :: _) => b.toNat == 255
-               | _ => true)
-            else if oid == [2, 5, 29, 28] then
-              (match t with
-               | .cons 0 16 kids => kids.all (fun (k : Asn1) => match k with
-                  | .prim 2 1 [b] => b.toNat == 255
-                  | .prim 2 2 [b] => b.toNat == 255
-                  | _ => true)
-               | _ => false)
-            else if oid == [2, 5, 29, 24] then
-              (match t with | .prim 0 24 _ => true | _ => false)
-            else true))
-    | _, _ => false
+  | .cons 0 16 [o, .prim 0 4 v] => extOidValueOk o v
+  | .cons 0 16 [o, c, .prim 0 4 v] => critOk c && extOidValueOk o v
   | _ => false
 
 def extsCanonical : Asn1 → Bool
@@ -363,6 +378,12 @@ def timeChoiceOk : Asn1 → Bool
     | none => false
   | _ => true
 
+/-- a field of TBSCertificate: the extensions block, or a two-element SEQUENCE (validity) -/
+def certFieldOk : Asn1 → Bool
+  | .cons 2 3 [e] => extsCanonical e
+  | .cons 0 16 [a, b] => timeChoiceOk a && timeChoiceOk b
+  | _ => true
+
 /-- canonical DER of a whole certificate: strict TLV, leaf rules everywhere, extension values
     opened and checked, validity in the RFC 5280 choice of time type -/
 def certCanonical (der : Bytes) : Bool :=
@@ -370,30 +391,34 @@ def certCanonical (der : Bytes) : Bool :=
   | some t =>
     canonical t &&
     (match t with
-     | .cons 0 16 [.cons 0 16 fields, _, _] =>
-       fields.all (fun (f : Asn1) => match f with
-         | .cons 2 3 [e] => extsCanonical e
-         | .cons 0 16 [a, b] => timeChoiceOk a && timeChoiceOk b
-         | _ => true)
+     | .cons 0 16 [.cons 0 16 fields, _, _] => fields.all certFieldOk
      | _ => false)
   | none => false
+
+def crlEntryOk : Asn1 → Bool
+  | .cons 0 16 [_, d, e] => timeChoiceOk d && extsCanonical e
+  | .cons 0 16 [_, d] => timeChoiceOk d
+  | _ => true
+
+def crlFieldOk : Asn1 → Bool
+  | .cons 2 0 [e] => extsCanonical e
+  | .cons 0 16 entries => entries.all crlEntryOk
+  | .prim 0 24 c => timeChoiceOk (.prim 0 24 c)
+  | _ => true
 
 def crlCanonical (der : Bytes) : Bool :=
   match decodeAll der with
   | some t =>
     canonical t &&
     (match t with
-     | .cons 0 16 [.cons 0 16 fields, _, _] =>
-       fields.all (fun (f : Asn1) => match f with
-         | .cons 2 0 [e] => extsCanonical e
-         | .cons 0 16 entries => entries.all (fun (en : Asn1) => match en with
-             | .cons 0 16 [_, d, e] => timeChoiceOk d && extsCanonical e
-             | .cons 0 16 [_, d] => timeChoiceOk d
-             | _ => true)
-         | .prim 0 24 c => timeChoiceOk (.prim 0 24 c)
-         | _ => true)
+     | .cons 0 16 [.cons 0 16 fields, _, _] => fields.all crlFieldOk
      | _ => false)
   | none => false
+
+def csrAttrOk : Asn1 → Bool
+  | .cons 0 16 [o, .cons 0 17 [.cons 0 16 exts]] =>
+    if asOid o == some [1, 2, 840, 113549, 1, 9, 14] then exts.all extCanonical else true
+  | _ => true
 
 def csrCanonical (der : Bytes) : Bool :=
   match decodeAll der with
@@ -401,11 +426,7 @@ def csrCanonical (der : Bytes) : Bool :=
     canonical t &&
     (match t with
      | .cons 0 16 [.cons 0 16 [_, _, _, .cons 2 0 attrs], _, _] =>
-       sortedBy bytesLe (attrs.map encode) &&
-       attrs.all (fun (a : Asn1) => match a with
-         | .cons 0 16 [o, .cons 0 17 [.cons 0 16 exts]] =>
-           if asOid o == some [1, 2, 840, 113549, 1, 9, 14] then exts.all extCanonical else true
-         | _ => true)
+       sortedBy bytesLe (attrs.map encode) && attrs.all csrAttrOk
      | _ => false)
   | none => false
 
